@@ -192,7 +192,16 @@ def run(case):
         used = max([1] + [c for r in routes for c in collections.Counter(zip(r[:-1], r[1:])).values()])
         B = max(case["B"], used)
         if pool is not None:
-            nt.append(f"{key}|{ctx}")
+            pcols = sorted(set(tuple(c[i] for i in idx) for c in family(B)))
+            pb, pw = fit.mpe_opt_pool(pcols, fv, sc, pool, kk, F)
+            if pb is not None and tot > pb + 1e-6:
+                viol.append({"kind": "mpe_not_optimal", "msg": f"{ctx}: total slack {tot} but with the given weights {pw} achieves {pb}",
+                             "solution": {rkey: routes, "weights": sol.get("weights"), "slacks": slk}})
+            elif pb is not None and tot < pb - 1e-6:
+                viol.append({"kind": "oracle_beaten", "msg": f"{ctx}: library slack {tot} < brute-force optimum {pb} with the given weights",
+                             "solution": {rkey: routes, "weights": sol.get("weights"), "slacks": slk}})
+            else:
+                nt.append(f"{key}|{ctx}")
             return
         fcols = family(B)
         best, wit, cols = best_of(fcols)
